@@ -476,7 +476,7 @@ func engineOverCorpus(progs []program, compiled []bool, idlDir, genDir string) {
 	}
 	args[0] += "," + strings.Join(tars, ",")
 	reg := filepath.Join(buildDir, "registry2_gen.go")
-	cmd := exec.Command("go", append([]string{"run", "./cmd/genreg", "-out", reg}, args...)...)
+	cmd := exec.Command("go", append([]string{"run", "./cmd/genreg", "-stubs", "-out", reg}, args...)...)
 	cmd.Dir = filepath.Join(vlib.Root(), "harness")
 	if out, err := cmd.CombinedOutput(); err != nil {
 		run.Inconclusive("genreg failed: " + clip(string(out), 300))
